@@ -12,13 +12,53 @@ def storediff(name, kinds, quick, thorough, search=None):
                 search=base + ['-scripts', str((search or thorough)[0]), '-batches', str((search or thorough)[1])])
 
 
+def sysdiff(name, kinds, quick, thorough, monitor, extra=None, search=None):
+    base = (['-kinds', ','.join(kinds)] if kinds else []) + ['-monitor', monitor] + (extra or [])
+    mk = lambda n: base + ['-scripts', str(n[0]), '-steps', str(n[1])]
+    return dict(bin='sysdiff', name=name, quick=mk(quick), thorough=mk(thorough), search=mk(search or thorough))
+
+
+def with_monitor(run, monitor):
+    r = dict(run)
+    for k in ('quick', 'thorough', 'search'):
+        r[k] = r[k] + ['-monitor', monitor]
+    return r
+
+
 PROMISE_KINDS = ['ReadPromise', 'ReadPromises', 'SearchPromises', 'CreatePromise', 'UpdatePromise', 'CreatePromiseAndTask']
 CALLBACK_KINDS = ['CreateCallback', 'DeleteCallbacks', 'CreateTasks', 'CompleteTasks']
 SCHEDULE_KINDS = ['ReadSchedule', 'ReadSchedules', 'SearchSchedules', 'CreateSchedule', 'UpdateSchedule', 'DeleteSchedule']
 TASK_KINDS = ['ReadTask', 'ReadTasks', 'ReadEnqueueableTasks', 'CreateTask', 'CreateTasks', 'CompleteTasks', 'UpdateTask', 'HeartbeatTasks', 'CreatePromiseAndTask']
 LOCK_KINDS = ['ReadLock', 'AcquireLock', 'ReleaseLock', 'HeartbeatLocks', 'TimeoutLocks']
 
+API_PROMISE = ['ReadPromise', 'SearchPromises', 'CreatePromise', 'CreatePromiseAndTask', 'CompletePromise', 'CreateCallback', 'CreateSubscription', 'ClaimTask']
+SYS_RULE = ('online-generated scripts against the real system.System + coroutines + router + sqlite store under a harness-owned AIO: '
+            'a case is one step (submit request / tick at a chosen time / one store batch of chosen composition, order and '
+            'before/after-commit failures / router or sender completion / crash+restart); every step is executed by the Lean model '
+            '(Sys.step) first and then by the implementation; compared: every dispatched submission, every response, error flag and '
+            'full table dump after every batch; non-trivial = a response or an executed store transaction (counted)')
+
 PROPS = {
+    'C01': dict(
+        modules=['Resonate.Properties.C01'],
+        tie_filter=r'promise(Select|SelectAll|Search|Insert|Update)|callbackInsert_guard|shape|wiring|uniques',
+        harness=[with_monitor(storediff('storediff-promises', PROMISE_KINDS + ['DeleteCallbacks', 'CompleteTasks', 'CreateTasks'], (30, 30), (800, 40), (300, 40)), 'C01'),
+                 sysdiff('sysdiff-promises', API_PROMISE, (25, 120), (600, 150), 'C01', ['-routed', '40', '-fail', '15', '-crash', '2'], (200, 150))],
+        rule=SYS_RULE + '; plus storediff over the promise command kinds; the C01 monitor (PromMono over consecutive implementation dumps) runs on every committed batch',
+        assumptions=['completion requests carry a state in {resolved, rejected, canceled} (front-end validation)',
+                     'byte strings are valid UTF-8 in generated inputs'],
+        trusted_base=['coroutine control flow and kernel tick are modelled by hand (Model/Coroutines, Model/System) and tied by sysdiff'],
+    ),
+    'C05': dict(
+        modules=['Resonate.Properties.C05'],
+        tie_filter=r'callback|taskInsertAll|taskCompleteByRootId|promiseUpdate|promiseSelect_|shape|wiring|uniques',
+        harness=[sysdiff('sysdiff-callbacks', ['ReadPromise', 'CreatePromise', 'CompletePromise', 'CreateCallback', 'CreateSubscription', 'SearchPromises'],
+                         (30, 120), (600, 150), 'C05,C01', ['-routed', '20', '-fail', '15', '-crash', '2'], (200, 150)),
+                 storediff('storediff-callbacks', ['CreatePromise', 'UpdatePromise', 'CreateCallback', 'DeleteCallbacks', 'CreateTasks', 'CompleteTasks', 'ReadTask', 'ReadPromise'], (20, 30), (500, 40))],
+        rule=SYS_RULE + '; the C05 monitor (every registration awaits a pending promise; a promise completed in a batch had every registration turned into exactly one identical task) runs on every committed batch of the implementation',
+        assumptions=['completion requests carry a state in {resolved, rejected, canceled} (front-end validation)'],
+        trusted_base=['coroutine control flow and kernel tick are modelled by hand (Model/Coroutines, Model/System) and tied by sysdiff'],
+    ),
     'C16': dict(
         modules=['Resonate.Properties.C16'],
         tie_filter=r'.*',
